@@ -72,9 +72,12 @@ def random_tree(rng: random.Random, n: int, depth: int = 4, root="r", pool=None)
     return sorted(mods)
 
 
-def random_world(rng: random.Random, n_modules=None, n_imports=None, depth=4, leaf_importers=False):
+PREFIX_POOL = ["a", "ab", "a_b", "b", "ba", "abc", "aa", "c", "ca", "d", "da", "ab_", "a1", "b1"]   # siblings prefix each other
+
+
+def random_world(rng: random.Random, n_modules=None, n_imports=None, depth=4, leaf_importers=False, pool=None):
     n = n_modules or rng.randint(8, 30)
-    mods = random_tree(rng, n, depth)
+    mods = random_tree(rng, n, depth, pool=pool)
     w = World(mods, [])
     cand = candidate_imports(mods, importers=w.leaves() if leaf_importers else None)
     k = min(len(cand), n_imports if n_imports is not None else rng.randint(0, 60))
